@@ -132,17 +132,19 @@ pub fn main() -> i32 {
         rec(R_BAD_ARGS, 0, [0; 7]);
         return 3;
     };
+    let plans: Vec<&'static Plan> = scn.plans.iter().map(|p| &*alloc::boxed::Box::leak(alloc::boxed::Box::new(p.clone()))).collect();
     rec(R_BASELINE, 0, [0; 7]);
     for r in 0..scn.rounds {
         let mut sum = 0u64;
         if scn.threads == 0 {
-            sum += churn(&scn.plans[0], scn.inner);
+            sum += churn(plans[0], scn.inner);
         } else {
             let mut hs = Vec::with_capacity(scn.threads);
             for t in 0..scn.threads {
-                let p = scn.plans[t].clone();
+                // the plans live for the whole run: the closure borrows, nothing is cloned per round
+                let p: &'static Plan = plans[t];
                 let inner = scn.inner;
-                match tiny_std::thread::spawn(move || churn(&p, inner)) {
+                match tiny_std::thread::spawn(move || churn(p, inner)) {
                     Ok(h) => hs.push(h),
                     Err(_) => return 4,
                 }
